@@ -570,6 +570,27 @@ pub fn install_fatal_verdict(prop: &str, track: bool) {
         }
     }
     TRACK.store(track, AtomicOrdering::Relaxed);
+    // a panic raised inside the implementation (not caught by a driver's own catch_unwind, which
+    // replaces this hook) is a verdict as well
+    let prop_owned = prop.to_string();
+    std::panic::set_hook(Box::new(move |info| {
+        let loc = info.location().map(|l| format!("{}:{}", l.file(), l.line())).unwrap_or_else(|| "?".into());
+        let msg = info.payload().downcast_ref::<String>().cloned().or_else(|| info.payload().downcast_ref::<&str>().map(|s| s.to_string())).unwrap_or_default();
+        if loc.contains("/verif/harness") {
+            eprintln!("MACHINERY-FAILURE: the harness panicked at {loc}: {msg}");
+            std::process::exit(2);
+        }
+        let case = current_case();
+        let path = format!("{VERIF}/replays/{prop_owned}-panic-in-implementation.json");
+        let case_json: Value = serde_json::from_str(&case).unwrap_or(Value::Null);
+        let body = json!({"property": prop_owned, "class": "panic-in-implementation", "occurrences": 1,
+            "detail": format!("panic at {loc}: {msg}"), "case": {"kind": "fatal", "worker_case": case_json}});
+        let _ = std::fs::write(&path, serde_json::to_string_pretty(&body).unwrap());
+        println!("VIOLATION property={prop_owned} replay={path}");
+        println!("  class=panic-in-implementation occurrences=1");
+        println!("  panic at {loc}: {msg}");
+        std::process::exit(1);
+    }));
 }
 
 pub fn enter_worker_mode() {
